@@ -1,4 +1,199 @@
-import NriModel.Basic
-/-! Property theorems for C17 — placeholder until the model is written. -/
+import NriModel.Registration
+import NriModel.Lemmas.StubMask
+import NriModel.Lemmas.Registration
+/-!
+Property C17 — only well-formed, timely registrations are activated, and the socket is private.
+
+All statements are about `Nri.Registration` (model of pkg/adaptation/plugin.go `start`,
+`RegisterPlugin`, `configure`; adaptation.go `acceptPluginConnections`, `startListener`;
+pkg/api/plugin.go `CheckPluginIndex`) and quantify over every name and index string, every
+32-bit mask, every behaviour of the connecting plugin (when, if ever, it registers, hangs up,
+answers Configure and Synchronize), every pair of timeouts, every list of such plugins and
+every umask.
+-/
 namespace Nri.Props.C17
+open Nri Nri.Events Nri.Registration Nri.Lemmas.Registration Nri.Lemmas.StubMask
+
+/-- The index check accepts exactly the strings made of two ASCII digits. -/
+theorem C17_index_iff (idx : Str) : checkIndex idx = .ok () ↔ TwoDigits idx := checkIndex_iff idx
+
+example : TwoDigits (str "07") := ⟨'0', '7', rfl, by decide, by decide⟩
+example : checkIndex (str "7") = .error .length ∧ checkIndex (str "007") = .error .length ∧
+          checkIndex (str "-1") = .error .notDigits ∧ checkIndex (str "é") = .error .notDigits ∧
+          checkIndex (str "٣٤") = .error .length := ⟨rfl, rfl, rfl, rfl, rfl⟩
+
+/-- An external plugin's registration is accepted exactly when the name is non-empty and the
+    index is two digits; it is then known under exactly that index and name. -/
+theorem C17_register_iff (pre : Str × Str) (name idx : Str) (r : Str × Str) :
+    registerPlugin true pre name idx = .ok r ↔ name ≠ [] ∧ TwoDigits idx ∧ r = (idx, name) :=
+  registerPlugin_ext_iff pre name idx r
+
+/-- The mask answered to Configure is accepted exactly when it has no bit outside the
+    thirteen defined events; an empty mask then stands for all of them. -/
+theorem C17_mask_iff (m m' : Mask) :
+    configureMask m = .ok m' ↔ m &&& ~~~valid = 0#32 ∧ m' = (if m = 0#32 then valid else m) :=
+  configureMask_iff m m'
+
+example : configureMask 0x2000#32 = .error (.invalidEvents 0x2000#32) ∧
+          configureMask 0x80000001#32 = .error (.invalidEvents 0x80000000#32) ∧
+          configureMask 0x1001#32 = .ok 0x1001#32 ∧ configureMask 0#32 = .ok 0x1fff#32 := ⟨rfl, rfl, rfl, rfl⟩
+
+/-- Activation, characterised. A connecting plugin ends up in the plugin list iff it
+    registers before the registration timeout (and before hanging up) with a non-empty name
+    and a two-digit index, answers Configure within the request timeout, without error, with a
+    mask of valid events only, and answers the initial Synchronize within the request timeout
+    without error — and it is then listed under exactly the index and name it registered and
+    the events it asked for. -/
+theorem C17_active_iff (to : Timeouts) (b : Behaviour) (idx name : Str) (ev : Mask) :
+    (handle to b).outcome = .activated idx name ev ↔
+      Timely to b ∧ b.name ≠ [] ∧ TwoDigits b.idx ∧
+      Answers b.cfgAt to.req ∧ b.cfgErr = false ∧ b.events &&& ~~~valid = 0#32 ∧
+      Answers b.syncAt to.req ∧ b.syncErr = false ∧
+      idx = b.idx ∧ name = b.name ∧ ev = (if b.events = 0#32 then valid else b.events) :=
+  handle_activated to b idx name ev
+
+example : (handle ⟨100, 100⟩ ⟨some 3, str "p", str "42", none, some 1, false, 0x11#32, some 2, false⟩).outcome =
+            .activated (str "42") (str "p") 0x11#32 := by decide
+example : (handle ⟨100, 100⟩ ⟨some 100, str "p", str "42", none, some 1, false, 0x11#32, some 2, false⟩).outcome =
+            .regTimeout := by decide
+
+/-- The events an active plugin is subscribed to are never empty and never outside the
+    defined thirteen. -/
+theorem C17_events_valid (to : Timeouts) (b : Behaviour) (idx name : Str) (ev : Mask)
+    (h : (handle to b).outcome = .activated idx name ev) : ev ≠ 0#32 ∧ ev &&& ~~~valid = 0#32 := by
+  obtain ⟨_, _, _, _, _, hv, _, _, _, _, hev⟩ := (C17_active_iff to b idx name ev).mp h
+  subst hev
+  by_cases hz : b.events = 0#32
+  · simp only [hz, if_true]
+    exact ⟨by decide, by decide⟩
+  · simp only [hz, if_false]
+    exact ⟨hz, hv⟩
+
+/-- What a plugin is sent during the handshake. Configure goes only to plugins whose
+    registration was well-formed and timely; Synchronize only to those that moreover answered
+    Configure in time with a valid mask. -/
+theorem C17_handshake_gated (to : Timeouts) (b : Behaviour) :
+    ((handle to b).configured = true → Timely to b ∧ b.name ≠ [] ∧ TwoDigits b.idx) ∧
+    ((handle to b).synced = true →
+       Timely to b ∧ b.name ≠ [] ∧ TwoDigits b.idx ∧
+       Answers b.cfgAt to.req ∧ b.cfgErr = false ∧ b.events &&& ~~~valid = 0#32) :=
+  (handle_flags to b).2
+
+/-- Isolation. After the accept loop has dealt with any list of connections, an event is
+    relayed to connection `i` iff that connection was activated (in the sense of
+    `C17_active_iff`) and asked for that event. A plugin that was not activated is not in the
+    list and receives no event. -/
+theorem C17_isolated (to : Timeouts) (bs : List Behaviour) (e : EventNo) (i : Nat) :
+    i ∈ recipients (acceptAll to {} bs).1 e ↔
+      ∃ b idx name ev, bs[i]? = some b ∧ (handle to b).outcome = .activated idx name ev ∧
+        isSet ev e = true := by
+  have hspec := acceptAll_spec to {} bs
+  simp only [recipients, List.mem_map, List.mem_filter]
+  rw [hspec.2.1]
+  simp only [List.nil_append]
+  constructor
+  · intro ⟨a, ⟨ha, hset⟩, hc⟩
+    obtain ⟨j, h, hj, hcj, ho⟩ := (mem_activeOf _ _ a).mp ha
+    have hji : j = i := by
+      have : a.conn = j := by simpa using hcj
+      omega
+    subst hji
+    rw [List.getElem?_map] at hj
+    cases hb : bs[j]? with
+    | none => simp [hb] at hj
+    | some b =>
+      simp only [hb, Option.map_some, Option.some.injEq] at hj
+      subst hj
+      exact ⟨b, a.idx, a.name, a.events, rfl, ho, hset⟩
+  · intro ⟨b, idx, name, ev, hb, ho, hset⟩
+    refine ⟨⟨i, idx, name, ev⟩, ⟨?_, hset⟩, rfl⟩
+    apply (mem_activeOf _ _ _).mpr
+    refine ⟨i, handle to b, ?_, by simp, ho⟩
+    rw [List.getElem?_map, hb]; rfl
+
+example : recipients (acceptAll ⟨10, 10⟩ {}
+            [ ⟨some 0, str "bad", str "7", none, some 0, false, 1#32, some 0, false⟩,
+              ⟨none, str "x", str "00", none, some 0, false, 1#32, some 0, false⟩,
+              ⟨some 0, str "good", str "10", none, some 0, false, 0#32, some 0, false⟩ ]).1 4 = [2] := by decide
+
+/-- No blocking. The loop spends a bounded number of ticks on any connection, whatever the
+    plugin does or omits, and what happens to a connection depends on that plugin's own
+    behaviour only — bad plugins ahead of it change nothing. In particular a good plugin behind
+    any number of bad ones is activated. -/
+theorem C17_no_block (to : Timeouts) (s : State) (bs : List Behaviour) :
+    (∀ b, (handle to b).elapsed ≤ to.reg + 2 * to.req) ∧
+    (acceptAll to s bs).2 = bs.map (handle to) ∧
+    (acceptAll to s bs).1.accepted = s.accepted + bs.length ∧
+    (acceptAll to s bs).1.clock ≤ s.clock + bs.length * (to.reg + 2 * to.req) := by
+  have hspec := acceptAll_spec to s bs
+  refine ⟨fun b => (handle_flags to b).1, hspec.1, hspec.2.2.1, ?_⟩
+  rw [hspec.2.2.2]
+  have : ∀ l : List Behaviour, ((l.map (handle to)).map (·.elapsed)).sum ≤ l.length * (to.reg + 2 * to.req) := by
+    intro l
+    induction l with
+    | nil => simp
+    | cons b l ih =>
+      have := (handle_flags to b).1
+      simp only [List.map_cons, List.sum_cons, List.length_cons, Nat.add_mul, Nat.one_mul]
+      omega
+  have := this bs
+  omega
+
+/-- Consequence spelled out: a well-behaved plugin behind arbitrary others is in the list. -/
+theorem C17_good_after_bad (to : Timeouts) (bad : List Behaviour) (g : Behaviour)
+    (hg : (handle to g).outcome = .activated g.idx g.name (if g.events = 0#32 then valid else g.events))
+    (e : EventNo) (he : isSet (if g.events = 0#32 then valid else g.events) e = true) :
+    bad.length ∈ recipients (acceptAll to {} (bad ++ [g])).1 e := by
+  apply (C17_isolated to (bad ++ [g]) e bad.length).mpr
+  exact ⟨g, _, _, _, by simp, hg, he⟩
+
+/-- A directory NRI creates for its socket carries no permission bit for group or others,
+    under every umask and inside every parent directory. -/
+theorem C17_dir_private (umask parent : Mode) : mkdirMode umask parent &&& 0o077#12 = 0#12 := by
+  unfold mkdirMode
+  apply BitVec.eq_of_getLsbD_eq
+  intro i hi
+  have h1 : ((0o700#12 : BitVec 12).getLsbD i && (0o077#12 : BitVec 12).getLsbD i) = false := by
+    have : i = 0 ∨ i = 1 ∨ i = 2 ∨ i = 3 ∨ i = 4 ∨ i = 5 ∨ i = 6 ∨ i = 7 ∨ i = 8 ∨ i = 9 ∨ i = 10 ∨ i = 11 := by omega
+    rcases this with h|h|h|h|h|h|h|h|h|h|h|h <;> subst h <;> decide
+  have h2 : ((0o2000#12 : BitVec 12).getLsbD i && (0o077#12 : BitVec 12).getLsbD i) = false := by
+    have : i = 0 ∨ i = 1 ∨ i = 2 ∨ i = 3 ∨ i = 4 ∨ i = 5 ∨ i = 6 ∨ i = 7 ∨ i = 8 ∨ i = 9 ∨ i = 10 ∨ i = 11 := by omega
+    rcases this with h|h|h|h|h|h|h|h|h|h|h|h <;> subst h <;> decide
+  simp only [BitVec.getLsbD_and, BitVec.getLsbD_or, BitVec.getLsbD_not, BitVec.getLsbD_zero]
+  cases ha : (0o700#12 : BitVec 12).getLsbD i <;> cases hb : (0o077#12 : BitVec 12).getLsbD i <;>
+    cases hc : (0o2000#12 : BitVec 12).getLsbD i <;> simp_all
+
+example : mkdirMode 0o022#12 0o755#12 = 0o700#12 ∧ mkdirMode 0o277#12 0o755#12 = 0o500#12 ∧
+          mkdirMode 0o777#12 0o777#12 = 0#12 ∧ mkdirMode 0o022#12 0o2775#12 = 0o2700#12 := by decide
+
+/-- The same for everything `startListener` creates: every path component that was missing
+    is private afterwards; components that existed are left as they were. -/
+theorem C17_created_private (umask parent : Mode) (chain : List (Option Mode)) (modes : List Mode)
+    (h : startListener false umask parent chain = some modes) :
+    modes.length = chain.length ∧
+    ∀ i : Nat, (chain[i]? = some none → ∃ m, modes[i]? = some m ∧ m &&& 0o077#12 = 0#12) ∧
+         (∀ m, chain[i]? = some (some m) → modes[i]? = some m) := by
+  simp only [startListener, Bool.false_eq_true, if_false, Option.some.injEq] at h
+  subst h
+  induction chain generalizing parent with
+  | nil => simp [mkdirAll]
+  | cons c rest ih =>
+    cases c with
+    | none =>
+      have := ih (mkdirMode umask parent)
+      refine ⟨by simp [mkdirAll, this.1], fun i => ?_⟩
+      cases i with
+      | zero => simp [mkdirAll, C17_dir_private]
+      | succ i => simpa [mkdirAll] using this.2 i
+    | some m0 =>
+      have := ih m0
+      refine ⟨by simp [mkdirAll, this.1], fun i => ?_⟩
+      cases i with
+      | zero => simp [mkdirAll]
+      | succ i => simpa [mkdirAll] using this.2 i
+
+/-- With external connections disabled nothing is created and no socket is served. -/
+theorem C17_no_listen (umask parent : Mode) (chain : List (Option Mode)) :
+    startListener true umask parent chain = none := rfl
+
 end Nri.Props.C17
